@@ -231,6 +231,23 @@ SortKeyed(pairs) ==
 SortByKeys(seq, keys) ==
   LET sorted == SortKeyed([i \in DOMAIN seq |-> <<seq[i], keys[i]>>]) IN [i \in DOMAIN sorted |-> sorted[i][1]]
 
+\* the same with any strict order on the keys (stable)
+RECURSIVE InsertKeyedLt(_, _, _), SortKeyedLt(_, _)
+InsertKeyedLt(Lt(_, _), x, s) ==
+  IF s = <<>> THEN <<x>>
+  ELSE IF Lt(x[2], s[1][2]) THEN <<x>> \o s
+  ELSE <<s[1]>> \o InsertKeyedLt(Lt, x, Tail(s))
+SortKeyedLt(Lt(_, _), pairs) ==
+  IF pairs = <<>> THEN <<>> ELSE InsertKeyedLt(Lt, pairs[Len(pairs)], SortKeyedLt(Lt, SubSeq(pairs, 1, Len(pairs) - 1)))
+SortByKeysLt(Lt(_, _), seq, keys) ==
+  LET sorted == SortKeyedLt(Lt, [i \in DOMAIN seq |-> <<seq[i], keys[i]>>]) IN [i \in DOMAIN sorted |-> sorted[i][1]]
+\* sort_numeric / sort_natural by a key: numbers (resp. strings without regard to case) in order, items
+\* without the key - or with nil - after all others, ties in their original order
+NumKeyLt(a, b) == a.t = "int" /\ (b.t # "int" \/ a.n < b.n)
+NatKeyLt(a, b) == a.t = "str" /\ (b.t # "str" \/ StrLt(DownCase(a.v), DownCase(b.v)))
+NumKeysOK(keys) == \A i \in DOMAIN keys : keys[i].t \in {"int", "nil", "undef"}
+NatKeysOK(keys) == \A i \in DOMAIN keys : keys[i].t \in {"str", "undef"}
+
 Known == {"slice", "replace_last", "remove_last", "truncatewords", "sort_natural", "sort_numeric", "escape_once", "url_encode", "url_decode", "reject", "find", "find_index", "has", "append", "prepend", "upcase", "downcase", "capitalize", "strip", "lstrip", "rstrip",
           "size", "escape", "replace", "replace_first", "remove", "remove_first", "split",
           "first", "last", "join", "default", "truncate", "reverse", "concat", "compact",
@@ -239,6 +256,22 @@ Known == {"slice", "replace_last", "remove_last", "truncatewords", "sort_natural
 
 \* Apply a filter.  `args` are evaluated positional arguments; cfg carries autoescape.
 MathFilters == {"plus", "minus", "times", "divided_by", "modulo", "abs", "at_least", "at_most", "round", "ceil", "floor"}
+
+\* integers beyond TLC's own: a decimal digit string; the cases that need no carry are enough to
+\* tell exact integer arithmetic from arithmetic that went through a float or a 28-digit decimal
+LastDigit(d) == DigitsVal(SubSeq(d, Len(d), Len(d)))
+BigApply(name, left, args) ==
+  LET d == left.d
+      a1 == Arg(args, 1, [t |-> "undef"]) IN
+  IF Len(args) # 1 THEN Err("LiquidTypeError")
+  ELSE IF a1.t # "int" \/ Ch(d, 1) = "-" THEN Err("UNSPEC")
+  ELSE CASE name = "plus" /\ a1.n >= 0 /\ a1.n <= 9 /\ LastDigit(d) + a1.n <= 9 ->
+              BigInt(SubSeq(d, 1, Len(d) - 1) \o ToString(LastDigit(d) + a1.n))
+         [] name = "minus" /\ a1.n >= 0 /\ a1.n <= LastDigit(d) ->
+              BigInt(SubSeq(d, 1, Len(d) - 1) \o ToString(LastDigit(d) - a1.n))
+         [] name = "times" /\ a1.n \in {1, 10, 100} ->
+              BigInt(d \o (IF a1.n = 1 THEN "" ELSE IF a1.n = 10 THEN "0" ELSE "00"))
+         [] OTHER -> Err("UNSPEC")
 
 \* the arithmetic filters when an operand is a float (or a string that reads as one)
 DecApply(name, left, args) ==
@@ -279,6 +312,7 @@ DecApply(name, left, args) ==
 Apply(name, left, args, cfg) ==
   \* booleans as numbers (Python's True == 1) are UNSPECIFIED
   IF name \in MathFilters /\ (left.t = "bool" \/ \E i \in DOMAIN args : args[i].t = "bool") THEN Err("UNSPEC") ELSE
+  IF name \in {"plus", "minus", "times"} /\ left.t = "big" THEN BigApply(name, left, args) ELSE
   IF name \in MathFilters /\ (Floaty(left) \/ (name # "round" /\ \E i \in DOMAIN args : Floaty(args[i]))) THEN DecApply(name, left, args) ELSE
   LET ae == cfg.autoescape
       ls == ToStr(left)
@@ -453,6 +487,11 @@ Apply(name, left, args, cfg) ==
               IN IF ~Canonical(ls) \/ lsafe THEN Err("UNSPEC")       \* whitespace normalisation: UNSPECIFIED.md
                  ELSE IF Len(ws) <= n THEN Str(ls)
                  ELSE Str(JoinStr(SubSeq(ws, 1, n), " ") \o end)
+    [] name \in {"sort_natural", "sort_numeric"} /\ Len(args) = 1 ->
+         IF a1.t # "str" \/ ~AllHashes(seq) THEN Err("UNSPEC")
+         ELSE LET keys == [i \in DOMAIN seq |-> IF HHas(seq[i].h, a1.v) THEN HGet(seq[i].h, a1.v) ELSE Undef] IN
+              IF name = "sort_numeric" THEN (IF NumKeysOK(keys) THEN Arr(SortByKeysLt(NumKeyLt, seq, keys)) ELSE Err("UNSPEC"))
+              ELSE (IF NatKeysOK(keys) THEN Arr(SortByKeysLt(NatKeyLt, seq, keys)) ELSE Err("UNSPEC"))
     [] name = "sort_natural" ->
          IF Len(args) # 0 THEN Err("UNSPEC")
          ELSE IF ~(\A i \in DOMAIN seq : seq[i].t = "str") THEN Err("UNSPEC")
